@@ -198,6 +198,10 @@ class VfState(pydantic.BaseModel):
     label: str = "fresh"
 
 
+def pick_index(seed, key, n):
+    return int(hashlib.sha256(f"{seed}|{key}".encode()).hexdigest(), 16) % n
+
+
 def dec(x):
     """decode spec values: {"$uuid": n} -> uuid.UUID(int=n), a value JsonSerializer cannot carry inside waiter requirements as is"""
     if isinstance(x, dict):
@@ -348,8 +352,13 @@ async def _run_acts(ctx, ev, sp, prog, att, v, uid, bid):
             t = act.get("type")
             if t is None:
                 return None
+            if t in ("nonevent", "nonevent_falsy"):
+                r.add("nonevent_return", step=step, bid=bid, uid=uid, kind=t)
             if t == "nonevent":
                 return 42
+            if t == "nonevent_falsy":
+                # a non-event that is falsy: 0, "", [], {}, False are no more events than 42 is
+                return [0, "", [], {}, False][pick_index(prog.get("sched_seed", 0), step, 5)]
             cv = f"{v}>{step}.r"
             extra = dict(act.get("pay") or {})
             for fld in act.get("copy", []):
@@ -393,7 +402,7 @@ def _union(types_):
 def _produced_types(sp):
     out = []
     for act in sp["acts"]:
-        if act["k"] in ("send", "sendm", "ret") and act.get("type") not in (None, "nonevent"):
+        if act["k"] in ("send", "sendm", "ret") and act.get("type") not in (None, "nonevent", "nonevent_falsy"):
             out.append(act["type"])
     return out
 
